@@ -452,13 +452,18 @@ class IntegerSequence(SequenceBase):
         # Only used in computing special sequential task prerequisites.
         if not self.i_step:
             # implies a one-off task was declared sequential
-            # TODO - check this results in sensible behaviour
+            if point > self.p_start:
+                return self.p_start
             return None
-        i = int(point - self.p_start) % int(self.i_step)
-        if i:
-            prev_point = point - IntegerInterval.from_integer(i)
+        if self.p_stop is not None and point > self.p_stop:
+            # beyond the end of the sequence: the last point is the previous
+            prev_point = self.p_stop
         else:
-            prev_point = point - self.i_step
+            i = int(point - self.p_start) % int(self.i_step)
+            if i:
+                prev_point = point - IntegerInterval.from_integer(i)
+            else:
+                prev_point = point - self.i_step
         ret = self._get_point_in_bounds(prev_point)
         if self.exclusions and ret in self.exclusions:
             return self.get_prev_point(ret)
@@ -489,8 +494,12 @@ class IntegerSequence(SequenceBase):
                 return self.p_start
             else:
                 return None
-        i = int(point - self.p_start) % int(self.i_step)
-        next_point = point + self.i_step - IntegerInterval.from_integer(i)
+        if point < self.p_start:
+            # before the start of the sequence: the first point is the next
+            next_point = self.p_start
+        else:
+            i = int(point - self.p_start) % int(self.i_step)
+            next_point = point + self.i_step - IntegerInterval.from_integer(i)
         ret = self._get_point_in_bounds(next_point)
         if self.exclusions and ret and ret in self.exclusions:
             return self.get_next_point(ret)
